@@ -923,6 +923,79 @@ pub fn update_output_with_monitors(w: &mut World, psbt: &mut Psbt, o: usize, di:
     }
 }
 
+/// A counterparty's PSBT whose witness_utxo contradicts the non_witness_utxo for the referenced
+/// outpoint (the classic amount lie), signed by signers that follow witness_utxo as rust-bitcoin's
+/// `Psbt::sign` does. The unsigned transaction commits to the txid, so the real output is known
+/// from the PSBT itself: a finalizer that reports success has produced a spend that is invalid
+/// for the output the transaction references.
+pub fn utxo_lie_probe(w: &mut World, actor: &str, psbt: &Psbt) {
+    if !w.mon.on("C14") || !w.mon.corruption || psbt.inputs.len() != w.env.inputs.len() {
+        return;
+    }
+    let env = w.env.clone();
+    for i in 0..env.inputs.len() {
+        let ic = &env.inputs[i];
+        if ic.foreign || !matches!(ic.kind, OutKind::Wpkh | OutKind::Wsh | OutKind::ShWpkh | OutKind::ShWsh) || is_final(&psbt.inputs[i]) {
+            continue;
+        }
+        if psbt.unsigned_tx.input[i].previous_output != ic.outpoint || w.dec.choose(&format!("utxo-lie:{}:{}", w.stats.attempts, i), 4) != 1 {
+            continue;
+        }
+        let mut p2 = psbt.clone();
+        let mut lie = ic.utxo.clone();
+        lie.value = bitcoin::Amount::from_sat(lie.value.to_sat().saturating_sub(777));
+        p2.inputs[i].non_witness_utxo = Some(ic.fund_tx.clone());
+        p2.inputs[i].witness_utxo = Some(lie.clone());
+        let mut believed: Vec<TxOut> = env.inputs.iter().map(|x| x.utxo.clone()).collect();
+        believed[i] = lie;
+        let hashes: Vec<usize> = env.uni.hashes.iter().filter(|h| ic.spec.text.contains(&h.hex)).map(|h| h.id).collect();
+        let sat = crate::wallet::god_sat_over(&env, &p2.unsigned_tx, i, &ic.key_ids, &hashes, mix(&[env.run_seed, 0x6c6965, i as u64]), &|_, _| true, believed);
+        p2.inputs[i].partial_sigs.clear();
+        p2.inputs[i].sighash_type = None;
+        for (k, sig) in &sat.ecdsa {
+            p2.inputs[i].partial_sigs.insert(env.uni.keys[*k].public, *sig);
+        }
+        for h in &sat.preimages {
+            let hi = &env.uni.hashes[*h];
+            match hi.kind {
+                crate::keys::HashKind::Sha256 => {
+                    p2.inputs[i].sha256_preimages.insert(sha256::Hash::from_slice(&hi.digest).unwrap(), hi.psbt_value.clone());
+                }
+                crate::keys::HashKind::Hash256 => {
+                    p2.inputs[i].hash256_preimages.insert(bitcoin::hashes::sha256d::Hash::from_slice(&hi.digest).unwrap(), hi.psbt_value.clone());
+                }
+                crate::keys::HashKind::Ripemd160 => {
+                    p2.inputs[i].ripemd160_preimages.insert(bitcoin::hashes::ripemd160::Hash::from_slice(&hi.digest).unwrap(), hi.psbt_value.clone());
+                }
+                crate::keys::HashKind::Hash160 => {
+                    p2.inputs[i].hash160_preimages.insert(hash160::Hash::from_slice(&hi.digest).unwrap(), hi.psbt_value.clone());
+                }
+            }
+        }
+        w.stats.probe("utxo_lie_probe");
+        let secp = w.env.secp.clone();
+        let r = guard(w, "finalize_inp_mut(utxo lie)", actor, |_| p2.finalize_inp_mall_mut(&secp, i));
+        if let Some(Ok(())) = r {
+            if is_final(&p2.inputs[i]) {
+                let ss = p2.inputs[i].final_script_sig.clone().unwrap_or_default();
+                let wit: Vec<Vec<u8>> = p2.inputs[i].final_script_witness.as_ref().map(|x| x.iter().map(|e| e.to_vec()).collect()).unwrap_or_default();
+                if let Err(e) = exec_spend(w, &p2.unsigned_tx, i, &wit, &ss, Flags::CONSENSUS) {
+                    let cls = format!("I1:utxo-lie:{:?}", w.env.inputs[i].kind);
+                    raise_class(
+                        w,
+                        "C14",
+                        "I1",
+                        cls,
+                        format!("finalize_inp_mall_mut finalised input {} although its witness_utxo (amount lowered by 777 sat) contradicts the non_witness_utxo of the referenced outpoint; the spend is invalid for the real output ({:?}): {}", i, e, w.env.inputs[i].spec.text),
+                        actor,
+                    );
+                    return;
+                }
+            }
+        }
+    }
+}
+
 pub fn probe_plan(w: &mut World, i: usize, assets: &Assets) {
     if w.mon.on("C17") || w.mon.on("C11") || w.mon.on("C01") {
         crate::mon_plan::check_plan_from_assets(w, i, assets);
